@@ -19,6 +19,14 @@
         every weight issued in the run exceeds `ttl_ticker_entry_size * (number of issued put_or_update requests that
         remove the time-to-live and give neither weight nor value)`;  with no such request: no condition beyond
         `Bounded` (`noD4_of_no_removal`);
+    `NoSpaceOverflow W N cfg`       (inputs only; the consequence of the known finding D10,
+                                     `C17/worker-died/site=space-overflow-after-shutdown-race`)
+        the configured limit is not negative and leaves `N * (W + ttl_ticker_entry_size * N)` of headroom below
+        `i64::MAX`.  `is_space_available_for` computes `max_weight - weight_used` in `i64`; a `shutdown()` that zeroes
+        `weight_used` under a delete or an eviction that has yet to subtract leaves the total NEGATIVE (D10) by up to the
+        weight issued so far, and with the limit near `i64::MAX` the next put's subtraction overflows and kills the
+        worker.  While the total is not negative nothing is asked of the limit beyond being an `i64`
+        (`C17_layerB_space_overflow_needs_negative_total`, NoPanic.lean); here the run may contain `shutdown()`;
     `NoValueMissing b₀ run`         (STATE-dependent; the known finding D14, second form,
                                      `C17/caller-panic/site=value-missing/key-removed-during-call`)
         whenever a `put_or_update` WITHOUT A VALUE reaches its `upsert.update` action the key is in the store.  This
@@ -26,8 +34,8 @@
         on the sweeper and on the interleaving with deletes.  The input-level sufficient condition is
         `Valued run` — every issued `put_or_update` carries a value (`noValueMissing_of_valued`).
 
-  Main theorem `C17_layerB_closed`: every run from the initial state whose inputs satisfy `Bounded`, `NoD4` and the
-  exclusion `NoValueMissing` is a `ValidRunB` — EVERY action of it meets `Act.pre` — hence
+  Main theorem `C17_layerB_closed`: every run from the initial state whose inputs satisfy `Bounded`, `NoD4`,
+  `NoSpaceOverflow` and the exclusion `NoValueMissing` is a `ValidRunB` — EVERY action of it meets `Act.pre` — hence
   (`C17_layerB_closed_no_panic`, by `C17_layerB_run_no_panic_init` / `C17_layerB_background_exit_only_on_shutdown`) no
   caller gets a panic, the worker never dies, the sweeper and the consumer exit only after `shutdown()`.
 
@@ -37,8 +45,9 @@
     * non-vacuity: `closedRun` (86 actions, 3 clients + worker + sweeper + clock: puts with and without time-to-live,
       `put_or_update` adding / removing a time-to-live, reads, a delete, a sweep that evicts) satisfies every
       hypothesis (`decide`), and the closed theorem is applied to it;
-    * `C17_layerB_closed_needs_NoD4`, `C17_layerB_closed_needs_NoValueMissing`   neither exclusion can be dropped
-      (runs within all other hypotheses that panic: the known findings D4 and D14 / second form);
+    * `C17_layerB_closed_needs_NoD4`, `C17_layerB_closed_needs_NoValueMissing`, `C17_layerB_closed_needs_NoSpaceOverflow`
+      no exclusion can be dropped (runs within all other hypotheses that panic / kill the worker: the known findings D4,
+      D14 / second form, and D10's consequence);
     * `C17_layerB_closed_NoD4_counts_removals`, `closed_charge_drifts_up`   why the bounds count REQUESTS: the charge of
       a key drifts by `ttl_ticker_entry_size` per `put_or_update` without weight and value (stale read of the ledger
       at `upsert.weight_of` while an earlier `UpdateWeight` is still queued) — a key put with weight 30 ends up charged
@@ -114,6 +123,16 @@ def Bounded (W T C N : Nat) (cfg : Cfg) (now : Nat) (run : List (Act × Oracle))
 
 instance (W T C N : Nat) (cfg : Cfg) (now : Nat) (run : List (Act × Oracle)) : Decidable (Bounded W T C N cfg now run) := by
   unfold Bounded; infer_instance
+
+/-- **The exclusion of D10's consequence, on the inputs** (the configuration and the two bounds of `Bounded`): the
+    configured limit is not negative (Layer G: `0 < total_cache_weight`) and leaves `N * (W + ttl_ticker_entry_size * N)`
+    — the largest total, of either sign, the requests of the run can produce — of headroom below `i64::MAX`.  Then
+    `max_weight - weight_used`, which `is_space_available_for` computes in `i64`, is representable whatever
+    `shutdown()` has done to the total. -/
+def NoSpaceOverflow (W N : Nat) (cfg : Cfg) : Prop :=
+  0 ≤ cfg.maxWeight ∧ cfg.maxWeight + (N : Int) * ((W : Int) + cfg.ttlEntry * (N : Int)) ≤ i64Max
+
+instance (W N : Nat) (cfg : Cfg) : Decidable (NoSpaceOverflow W N cfg) := by unfold NoSpaceOverflow; infer_instance
 
 /-- the number of issued `put_or_update` requests that remove the time-to-live and give neither weight nor value -/
 def rmCount (run : List (Act × Oracle)) : Nat := (issued run).countP Req.rmDerive
@@ -401,6 +420,7 @@ theorem posW_of_range {lo hi top : Int} (hlo : 0 ≤ lo) : ∀ {uw : Option Int}
 theorem cinv_pre {cfg : Cfg} {T C : Nat} {W RB AB MB : Int} {a : Act} {o : Oracle} {tr : List (Act × Oracle)}
     {b : BState} (hE : 0 ≤ cfg.ttlEntry) (hM : 0 ≤ W + AB) (hRB : 0 ≤ RB) (hMax : W + AB ≤ i64Max) (hMB : MB ≤ i64Max)
     (hT : (addTime C T).isSome = true) (hi : CInv cfg T C W RB AB MB ((a, o) :: tr) b)
+    (hmx : b.g.adm.max = cfg.maxWeight) (hc0 : 0 ≤ cfg.maxWeight) (hcI : cfg.maxWeight + MB ≤ i64Max)
     (hreq : ∀ i r, a = .issue i r → reqOk cfg T (fun x => RB < x ∧ x ≤ W) r) (hvm : vmOk b a = true) : a.pre b := by
   obtain ⟨c1, c2, c3, c4, c5, c6⟩ := hi
   have hlo := loS_nonneg hE ((a, o) :: tr) b
@@ -458,7 +478,29 @@ theorem cinv_pre {cfg : Cfg} {T C : Nat} {W RB AB MB : Int} {a : Act} {o : Oracl
       | _ => trivial
   | worker =>
     show b.w.pre b.g
+    -- `wu.space`: `-MB ≤ weight_used ≤ MB` (the budget of the requests issued), the limit leaves `MB` of headroom
+    have hspace : (∃ c, b.w = .space0 c) ∨ (∃ c e s, b.w = .evSpace c e s) ∨ (∃ c, b.w = .emptySpace c) →
+        b.g.adm.spaceOverflow = false := by
+      intro hpos
+      have hs := slk_nonneg hM CPc.cr b.cl
+      have hq := qcr_nonneg hM b.g.queue
+      have hk := kcr_nonneg hM b.g.adm.kw
+      have hsv := bM_nonneg hM b.sw.crV
+      have hwI := bM_nonneg hM b.w.crI
+      have hwD := bM_nonneg hM b.w.crD
+      have hwV := bM_nonneg hM b.w.crV
+      have hb := budL_nonneg hM (fun _ => true) (issued ((Act.worker, o) :: tr))
+      have u1 := c6.up
+      have u3 := c6.lo
+      simp only [cI, cD] at u1 u3
+      rw [Adm.spaceOverflow_eq_false_iff, hmx]
+      unfold i64Max at hMax hMB hcI
+      simp only [i64Min, i64Max]
+      omega
     cases hw : b.w with
+    | space0 c => exact hspace (Or.inl ⟨c, hw⟩)
+    | evSpace c e s => exact hspace (Or.inr (Or.inl ⟨c, e, s, hw⟩))
+    | emptySpace c => exact hspace (Or.inr (Or.inr ⟨c, hw⟩))
     | storePut c =>
       have := (c5.wcmd c (by simp [hw, WPc.cmd?])).2
       show timeOk b.g.now c.ttl
@@ -511,18 +553,19 @@ theorem noValueMissing_cons {b : BState} {a : Act} {o : Oracle} {tr : List (Act 
   exact this
 
 theorem closed_aux {cfg : Cfg} {T C : Nat} {W RB AB MB : Int} (hE : 0 ≤ cfg.ttlEntry) (hM : 0 ≤ W + AB) (hRB : 0 ≤ RB)
-    (hMax : W + AB ≤ i64Max) (hMB : MB ≤ i64Max) (hT : (addTime C T).isSome = true) :
-    ∀ (tr : List (Act × Oracle)) (b b' : BState), CInv cfg T C W RB AB MB tr b →
+    (hMax : W + AB ≤ i64Max) (hMB : MB ≤ i64Max) (hT : (addTime C T).isSome = true)
+    (hc0 : 0 ≤ cfg.maxWeight) (hcI : cfg.maxWeight + MB ≤ i64Max) :
+    ∀ (tr : List (Act × Oracle)) (b b' : BState), CInv cfg T C W RB AB MB tr b → BInv b →
       (∀ r ∈ issued tr, reqOk cfg T (fun x => RB < x ∧ x ≤ W) r) → NoValueMissing b tr → RunB b tr b' →
       ValidRunB b tr b' := by
   intro tr
   induction tr with
   | nil =>
-    intro b b' _ _ _ hrun
+    intro b b' _ _ _ _ hrun
     cases hrun
     exact .nil b
   | cons x tr ih =>
-    intro b b' hinv hreqs hvm hrun
+    intro b b' hinv hbi hreqs hvm hrun
     obtain ⟨a, o⟩ := x
     cases hrun with
     | cons hstep hrest =>
@@ -531,9 +574,11 @@ theorem closed_aux {cfg : Cfg} {T C : Nat} {W RB AB MB : Int} (hE : 0 ≤ cfg.tt
         subst ha
         exact hreqs r (by simp [issued])
       obtain ⟨hv, hvnext⟩ := noValueMissing_cons hvm
-      have hpre := cinv_pre hE hM hRB hMax hMB hT hinv hreq hv
+      have hmx : b.g.adm.max = cfg.maxWeight := by rw [hbi.maxFixed, hinv.cfgEq]
+      have hpre := cinv_pre hE hM hRB hMax hMB hT hinv hmx hc0 hcI hreq hv
       have hinv' := cinv_step hE hM hinv hstep hreq
-      exact .cons hpre hstep (ih _ _ hinv' (fun r hr => hreqs r (issued_mem_cons hr)) (hvnext _ _ hstep) hrest)
+      exact .cons hpre hstep
+        (ih _ _ hinv' (binv_step hbi hstep) (fun r hr => hreqs r (issued_mem_cons hr)) (hvnext _ _ hstep) hrest)
 
 theorem cinv_init {cfg : Cfg} {T C : Nat} {W : Int} {now : Nat} (seeds : List Nat) (clients : Nat)
     (shardMap : List (Nat × Nat)) (tr : List (Act × Oracle)) (hclock : now + advTotal tr ≤ C) :
@@ -565,12 +610,16 @@ theorem reqOk_and {cfg : Cfg} {T : Nat} {P Q : Int → Prop} {r : Req} (h1 : req
     state of a cache — any configuration, any number of clients, any map of keys to store shards, any interleaving of
     clients, worker, sweeper, consumer and clock, every oracle — whose INPUTS satisfy `Bounded W T C N` (weights in
     `1..W`, time-to-live `≤ T`, clock `≤ C` with `C + T` representable, at most `N` requests,
-    `(N + 1) * (W + ttl_ticker_entry_size * N) ≤ i64::MAX`) and the input-level exclusion `NoD4` of the known finding D4,
+    `(N + 1) * (W + ttl_ticker_entry_size * N) ≤ i64::MAX`), the input-level exclusion `NoD4` of the known finding D4 and
+    the input-level exclusion `NoSpaceOverflow` of the consequence of the known finding D10,
     and which avoids the state-dependent known finding D14 / second form (`NoValueMissing`).  Then EVERY action of the
-    run meets `Act.pre` in the state it runs in: the run is a `ValidRunB`. -/
+    run meets `Act.pre` in the state it runs in: the run is a `ValidRunB`.
+    STATEMENT CHANGED (hypothesis `hSO`): `Act.pre` now asks of the worker's `wu.space` actions that
+    `max_weight - weight_used` be representable in `i64` (the code panics otherwise); the run may contain a `shutdown()`
+    racing a delete, after which the total is negative (D10) — `C17_layerB_closed_needs_NoSpaceOverflow`. -/
 theorem C17_layerB_closed {W T C N : Nat} {cfg : Cfg} {now : Nat} {seeds : List Nat} {clients : Nat}
     {shardMap : List (Nat × Nat)} {run : List (Act × Oracle)} {b' : BState}
-    (hB : Bounded W T C N cfg now run) (hD4 : NoD4 cfg run)
+    (hB : Bounded W T C N cfg now run) (hD4 : NoD4 cfg run) (hSO : NoSpaceOverflow W N cfg)
     (hVM : NoValueMissing { BState.init cfg now seeds clients with storeShard := shardMap } run)
     (hrun : RunB { BState.init cfg now seeds clients with storeShard := shardMap } run b') :
     ValidRunB { BState.init cfg now seeds clients with storeShard := shardMap } run b' := by
@@ -592,8 +641,11 @@ theorem C17_layerB_closed {W T C N : Nat} {cfg : Cfg} {now : Nat} {seeds : List 
       ((W : Int) + cfg.ttlEntry * (N : Int)) * (N : Int) + ((W : Int) + cfg.ttlEntry * (N : Int)) := by
     rw [Int.add_mul, Int.one_mul, Int.mul_comm]
   have hnn : 0 ≤ ((W : Int) + cfg.ttlEntry * (N : Int)) * (N : Int) := Int.mul_nonneg hM0 (by omega)
-  refine closed_aux (W := (W : Int)) hE hM hRB (by omega) (by omega) hT run _ _
-    (cinv_init seeds clients shardMap run hclock) ?_ hVM hrun
+  obtain ⟨hc0, hcI⟩ := hSO
+  rw [Int.mul_comm] at hcI
+  refine closed_aux (W := (W : Int)) hE hM hRB (by omega) (by omega) hT hc0 (by omega) run _ _
+    (cinv_init seeds clients shardMap run hclock) (binv_reach (Reach.init (cfg := cfg) (now := now) (seeds := seeds)
+      (clients := clients) shardMap)) ?_ hVM hrun
   intro r hr
   have h1 := hreqs r hr
   have h2 := hD4 r hr
@@ -609,11 +661,11 @@ theorem C17_layerB_closed {W T C N : Nat} {cfg : Cfg} {now : Nat} {seeds : List 
     flag). -/
 theorem C17_layerB_closed_no_panic {W T C N : Nat} {cfg : Cfg} {now : Nat} {seeds : List Nat} {clients : Nat}
     {shardMap : List (Nat × Nat)} {run : List (Act × Oracle)} {b' : BState} (hs : seeds ≠ [])
-    (hB : Bounded W T C N cfg now run) (hD4 : NoD4 cfg run)
+    (hB : Bounded W T C N cfg now run) (hD4 : NoD4 cfg run) (hSO : NoSpaceOverflow W N cfg)
     (hVM : NoValueMissing { BState.init cfg now seeds clients with storeShard := shardMap } run)
     (hrun : RunB { BState.init cfg now seeds clients with storeShard := shardMap } run b') :
     b'.w ≠ .dead ∧ b'.g.worker ≠ .dead ∧ PanicFree b' ∧ b'.g.lfu.fc.WF ∧ ExitInv b' := by
-  obtain ⟨h1, h2, h3, h4, h5⟩ := C17_layerB_run_no_panic_init hs (C17_layerB_closed hB hD4 hVM hrun)
+  obtain ⟨h1, h2, h3, h4, h5⟩ := C17_layerB_run_no_panic_init hs (C17_layerB_closed hB hD4 hSO hVM hrun)
   exact ⟨h1, h2, h3, h4, C17_layerB_background_exit_only_on_shutdown h5⟩
 
 /-! ## input-level sufficient conditions for the two exclusions -/
@@ -737,14 +789,15 @@ theorem noValueMissing_of_valued {cfg : Cfg} {now : Nat} {seeds : List Nat} {cli
   · cases h; rfl
   · cases h
 
-/-- **C17, closed form, every hypothesis on the inputs**: `Bounded`, and every `put_or_update` carries a value
-    (`Valued`; then no request removes a time-to-live without giving a weight or a value, so `NoD4` holds as well). -/
+/-- **C17, closed form, every hypothesis on the inputs**: `Bounded`, `NoSpaceOverflow`, and every `put_or_update` carries
+    a value (`Valued`; then no request removes a time-to-live without giving a weight or a value, so `NoD4` holds as
+    well).  STATEMENT CHANGED (hypothesis `hSO`, as in `C17_layerB_closed`). -/
 theorem C17_layerB_closed_inputs {W T C N : Nat} {cfg : Cfg} {now : Nat} {seeds : List Nat} {clients : Nat}
     {shardMap : List (Nat × Nat)} {run : List (Act × Oracle)} {b' : BState}
-    (hB : Bounded W T C N cfg now run) (hv : Valued run)
+    (hB : Bounded W T C N cfg now run) (hSO : NoSpaceOverflow W N cfg) (hv : Valued run)
     (hrun : RunB { BState.init cfg now seeds clients with storeShard := shardMap } run b') :
     ValidRunB { BState.init cfg now seeds clients with storeShard := shardMap } run b' := by
-  refine C17_layerB_closed hB (noD4_of_no_removal hB ?_) (noValueMissing_of_valued hv) hrun
+  refine C17_layerB_closed hB (noD4_of_no_removal hB ?_) hSO (noValueMissing_of_valued hv) hrun
   unfold rmCount
   rw [List.countP_eq_zero]
   intro r hr
@@ -793,12 +846,13 @@ example : ∃ b', ValidRunB (c17B 3) closedRun b' ∧ b'.w ≠ .dead ∧ b'.g.wo
   obtain ⟨hvm, b', hrun, _⟩ := closedRun_runs
   have hB : Bounded 100 2000000000 7000000000 10 c17Cfg 3000000000 closedRun := by decide +kernel
   have hD : NoD4 c17Cfg closedRun := by decide +kernel
-  have hv := C17_layerB_closed (seeds := [1, 2, 3, 4]) (clients := 3) (shardMap := []) hB hD hvm hrun
+  have hS : NoSpaceOverflow 100 10 c17Cfg := by decide
+  have hv := C17_layerB_closed (seeds := [1, 2, 3, 4]) (clients := 3) (shardMap := []) hB hD hS hvm hrun
   obtain ⟨h1, h2, h3, _⟩ := C17_layerB_closed_no_panic (seeds := [1, 2, 3, 4]) (clients := 3) (shardMap := [])
-    (by decide) hB hD hvm hrun
+    (by decide) hB hD hS hvm hrun
   exact ⟨b', hv, h1, h2, h3⟩
 
-/-! ## The two named exclusions cannot be dropped (they are the known findings) -/
+/-! ## The named exclusions cannot be dropped (they are the known findings) -/
 
 /-- **Without `NoD4`** (known finding D4): inputs within `Bounded`, no request without a value meets an absent key —
     but a weight (5) does not exceed `ttl_ticker_entry_size` while one request removes a time-to-live without giving
@@ -832,6 +886,30 @@ theorem C17_layerB_closed_needs_NoValueMissing :
   split at h
   · rename_i b' hb'
     exact ⟨b', by decide +kernel, by decide +kernel, by decide +kernel, runB?_sound _ hb', of_decide_eq_true h⟩
+  · cases h
+
+/-- `spaceOverflowPrefix` (NoPanic.lean: the schedule of `corpus/C17_D10_space_overflow.in`, first case) and the worker's
+    action at `wu.space` -/
+def spaceOverflowRun : List (Act × Oracle) := spaceOverflowPrefix ++ acts [.worker]
+
+/-- **Without `NoSpaceOverflow`** (the consequence of the known finding D10): inputs within `Bounded` and `NoD4`, every
+    `put_or_update`… there is none; no value is missing — but the limit is `i64::MAX`, `shutdown()` overlaps a delete, the
+    total is −3 when the next put computes `max_weight - weight_used`: the worker dies, the put's acknowledgement stays
+    pending for ever. -/
+theorem C17_layerB_closed_needs_NoSpaceOverflow :
+    ∃ b', Bounded 100 0 3000000000 4 c17BigCfg 3000000000 spaceOverflowRun ∧ NoD4 c17BigCfg spaceOverflowRun ∧
+      Valued spaceOverflowRun ∧ ¬ NoSpaceOverflow 100 4 c17BigCfg ∧
+      NoValueMissing (c17BBig 2) spaceOverflowRun ∧ RunB (c17BBig 2) spaceOverflowRun b' ∧
+      b'.w = .dead ∧ b'.g.worker = .dead ∧ b'.g.adm.used = -3 ∧ b'.g.acks = [.accepted, .accepted, .pending] := by
+  have h : (match runB? (c17BBig 2) spaceOverflowRun with
+    | some b' => decide (b'.w = .dead ∧ b'.g.worker = .dead ∧ b'.g.adm.used = -3 ∧
+        b'.g.acks = [.accepted, .accepted, .pending])
+    | none => false) = true := by decide +kernel
+  split at h
+  · rename_i b' hb'
+    obtain ⟨h1, h2, h3, h4⟩ := of_decide_eq_true h
+    exact ⟨b', by decide +kernel, by decide +kernel, by decide +kernel, by decide +kernel, by decide +kernel,
+      runB?_sound _ hb', h1, h2, h3, h4⟩
   · cases h
 
 /-! ## Why the bounds count requests: the charge of a key drifts by `ttl_ticker_entry_size` per request
